@@ -2,6 +2,7 @@
 //! and API oracles evaluated on every run.
 
 use crate::oracles::*;
+use crate::oracles2::*;
 use crate::runner::{Engine, Outcome};
 use crate::sim::*;
 use crate::sim_pair::*;
@@ -33,6 +34,43 @@ pub fn evaluate_pair(case: &PairCase, run: &PairRun, focus: Focus) -> Outcome {
         check_c06(&StallInfo { unfinished: &run.unfinished, completed_when_repolled: run.completed_when_repolled, end: &run.end }, run.panic.is_some(), &mut out);
     } else if let RunEnd::BusyLoop(t) = &run.end {
         out.fail("C08", "busy-loop", format!("C08/busy-loop/{}", strip_digits(t)), format!("task {} keeps waking itself without any progress", t));
+    }
+    let app_pending = run.unfinished.iter().any(|(_, g)| matches!(g, Group::ClientApp | Group::ServerApp));
+    let conn_err = run.events.iter().any(|e| matches!(&e.api, Api::ConnDone { result: Err(_) }));
+    let settled = run.end == RunEnd::Quiescent && !app_pending && run.panic.is_none() && !faulty && !conn_err;
+    check_c17(&C17Ctx { tap: &tap, events: &run.events, h2_sides: &sides, settled }, &mut out);
+    let reset_max = [case.ccfg.reset_max.unwrap_or(50), case.scfg.reset_max.unwrap_or(50)];
+    let c2s_shutdown = run.wire.c2s.borrow().shutdown_called;
+    check_c19(
+        &C19Ctx { tap: &tap, events: &run.events, stats: &run.stats, settled, client_handles_gone: settled && case.drop_send_request_at_end, c2s_shutdown, reset_max },
+        &mut out,
+    );
+    check_c05(
+        &C05Ctx { tap: &tap, av: &av, events: &run.events, h2_sides: &sides, advertised: [case.ccfg.max_concurrent, case.scfg.max_concurrent], check_recycling: true },
+        &mut out,
+    );
+    if focus == Focus::Faults {
+        let ending = if let Some(f) = &case.fault {
+            format!("{:?}-{}", f.kind, if f.c2s { "c2s" } else { "s2c" })
+        } else {
+            case.ops.iter().find_map(|o| match o.cmd {
+                ConnCmd::GracefulShutdown => Some("graceful_shutdown".to_string()),
+                ConnCmd::AbruptShutdown(_) => Some("abrupt_shutdown".to_string()),
+                ConnCmd::DropConnection => Some(format!("drop-{}-connection", o.side.name())),
+                _ => None,
+            }).unwrap_or_else(|| "none".into())
+        };
+        let dropped_conn = [
+            case.ops.iter().any(|o| o.side == Side::Client && matches!(o.cmd, ConnCmd::DropConnection)),
+            case.ops.iter().any(|o| o.side == Side::Server && matches!(o.cmd, ConnCmd::DropConnection)),
+        ];
+        if run.panic.is_none() {
+            check_c07(&C07Ctx { events: &run.events, unfinished: &run.unfinished, end: &run.end, completed_when_repolled: run.completed_when_repolled, dropped_conn, ending }, &mut out);
+        }
+        out.label("connection-ending");
+    }
+    if settled {
+        out.label("settled");
     }
     if run.end == RunEnd::Budget {
         out.label("step-budget-hit");
@@ -99,6 +137,10 @@ pub fn dump_pair(case: &PairCase) {
         let s2c = run.wire.s2c.borrow();
         tapx::analyse(&c2s, &s2c, &[Side::Client, Side::Server])
     };
+    dump_lines(&tap, &run);
+}
+
+pub fn dump_lines(tap: &tapx::Tap, run: &PairRun) {
     #[derive(Debug)]
     enum L<'a> {
         F(&'a tapx::TFrame),
